@@ -118,6 +118,9 @@ def check(prop, tier, seed):
             return
         kh_dir, hs = K.prepare(scratch, cfg["kani"])
         sel = [h for h in hs if tier_ok(h.tier, tier)]
+        flt = cfg.get("kani_filter_thorough" if tier == "thorough" else "kani_filter")
+        if flt:
+            sel = [h for h in hs if re.search(flt, h.name) and (tier == "thorough" or tier_ok(h.tier, tier) or cfg.get("kani_filter_ignores_tier"))]
         kr = K.run_harnesses(kh_dir, sel, jobs=jobs, timeout=7200 if tier == "thorough" else 2400,
                              harness_timeout=3000 if tier == "thorough" else 900)
         kres.update(kh_dir=kh_dir, hs=sel, kr=kr)
@@ -132,6 +135,16 @@ def check(prop, tier, seed):
     tk.start(); tv.start(); tk.join(); tv.join()
 
     violations, undecided, units = [], [], []
+    inv = None
+    if cfg.get("inventory"):
+        from . import inventory as INV
+        inv = INV.inventory(scratch.repo)
+        if inv["unmapped"]:
+            msg = "C01 inventory: %d `unsafe` site(s) without an entry in contracts/C01.sites.json: %s" % (
+                len(inv["unmapped"]), "; ".join("%s:%d in %s" % (u["file"], u["line"], u["item"]) for u in inv["unmapped"][:8]))
+            log(msg)
+            if tier == "thorough":
+                undecided.append(msg + " (new unsafe code is not covered by any contract: no verdict)")
     if kres:
         v, u, un = decide_kani(prop, kres["kh_dir"], kres["hs"], kres["kr"], tier)
         violations += v; undecided += u; units += un
@@ -162,6 +175,10 @@ def check(prop, tier, seed):
 
     wall = time.time() - t0
     ev = build_evidence(prop, cfg, tier, seed, units, kres, vres, new_violations, known_hits, undecided, wall)
+    if inv is not None:
+        ev["coverage"]["unsafe_inventory"] = dict(
+            sites=inv["sites"], mapped=len(inv["mapped"]), unmapped=[dict(file=u["file"], line=u["line"], item=u["item"]) for u in inv["unmapped"]],
+            table=[dict(file=m["file"], item=m["item"], kind=m["kind"], engine=m["engine"], unit=m["unit"], by=m["by"], obligation=m["obligation"]) for m in inv["mapped"]])
     write_json(os.path.join(VERIF, "evidence", prop + ".json"), ev)
 
     for l in out_lines:
